@@ -157,6 +157,8 @@ def nm(v):
         return ("str", v["s"])
     if t == "sym":
         p = v["p"]
+        if v["n"] > 0 and v["s"].startswith("gen"):
+            return ("sym", "gen%08d" % v["n"], bool(v["q"]))       # a gensym: the runtime's zero-padded spelling
         name = v["s"] if p == "" else (":" + v["s"] if p == ":" else p + ":" + v["s"])
         return ("sym", name, bool(v["q"]))
     if t == "list":
